@@ -77,3 +77,11 @@ Theorem C16_trailing_region_refuted :
               buffer_rev (sort_cands [x; y]) <> stated_rule x y.
 Proof. exact trailing_region_refuted. Qed.
 Print Assumptions C16_trailing_region_refuted.
+
+(* `relation`, which every theorem above rests on, is the function of span_tokenizer.py as the source has it now:
+   Gen/GenSpan.v is written from the source text on every run (harness/gen/gen_core.py, fails closed) and the
+   model's definition is equal to it on every pair of candidates (Proofs/SpanRegen.v). *)
+From Mistletoe Require Import Gen.GenSpan Proofs.SpanRegen.
+Theorem C16_relation_is_the_source : forall x y, g_relation x y = rel_code (relation x y).
+Proof. exact relation_regenerated. Qed.
+Print Assumptions C16_relation_is_the_source.
